@@ -185,6 +185,20 @@ XSites ==
   IF XName = "fcc" THEN {p \in G : (p[1] + p[2] + p[3]) % 2 = 0}
   ELSE IF XName = "sc" THEN G
   ELSE {p \in G : p[1] % 2 = p[2] % 2 /\ p[2] % 2 = p[3] % 2}
+\* the sites of the same crystal in a cell of any edge L (L even for fcc / bcc: the parity rule must close periodically)
+XSitesOf(L) ==
+  LET G == {<<x, y, z>> : x \in 0..(L - 1), y \in 0..(L - 1), z \in 0..(L - 1)} IN
+  IF XName = "fcc" THEN {p \in G : (p[1] + p[2] + p[3]) % 2 = 0}
+  ELSE IF XName = "sc" THEN G
+  ELSE {p \in G : p[1] % 2 = p[2] % 2 /\ p[2] % 2 = p[3] % 2}
+\* Size independence: in a cell of edge L the sites are closed under the shell vectors (taken modulo L), and distinct shell
+\* vectors lead to distinct sites - so EVERY site of a crystal of ANY such size has the full shell of the reference
+\* environment, and q_l = Q_l = the reference value whatever the number of particles.  Checked for the emitted size and two
+\* larger ones; the harness then builds a crystal of more than 2^18 bonds with the emitted shell vectors (index arithmetic).
+XClosed(L, V) ==
+  LET Sx == XSitesOf(L) IN
+  \A p \in Sx : /\ \A v \in V : [c \in 1..3 |-> (p[c] + v[c]) % L] \in Sx
+                 /\ Cardinality({[c \in 1..3 |-> (p[c] + u[c]) % L] : u \in V}) = Cardinality(V)
 XKey(p) == (p[1] * XL + p[2]) * XL + p[3]
 XPos  == LET ks == SortedSeq({XKey(p) : p \in XSites})
          IN  [i \in 1..Len(ks) |-> <<ks[i] \div (XL * XL), (ks[i] \div XL) % XL, ks[i] % XL>>]
@@ -210,6 +224,8 @@ InvRefEqualLengths == Mode = "ref" =>
   LET env == RefEnv(RefNames[a.k]) IN
   RefNames[a.k] # "bcc" => RefEqualLengths(env, 1..Len(env.nb))
 \* periodic crystal: every site has the full shell, and its q_l^2 (through the minimum image) is the reference value
+InvXtalSizeIndependent == Mode = "xtal" =>
+  LET V == XVecs IN /\ XSitesOf(XL) = XSites /\ XClosed(XL, V) /\ XClosed(XL + 2, V) /\ XClosed(XL + 4, V)
 InvXtal == Mode = "xtal" =>
   LET fr == XFrameV
       q2 == AExact(XH, <<1, 1, 1>>, fr, l, 1, 1, 30)
@@ -325,6 +341,7 @@ XtalCase ==
     defs |-> FrameDefs(XH, <<1, 1, 1>>, fr, 1, l, 30, WithW),
     exp |-> <<FrameExp(XH, <<1, 1, 1>>, fr, 1, l, 30, WithW, Thresholds)>>,
     ql2ref |-> QR(RefQl2(RefEnv(XName), l)),
+    shell |-> BondsOf(XH, <<1, 1, 1>>, fr, 30)[1],       \* the shell vectors (bonds of site 1), for crystals of other sizes
     compose |-> Compose(l) ]
 
 Emit == Gen => PrintT(ToJson(IF Mode = "ref" THEN RefCase ELSE IF Mode = "xtal" THEN XtalCase ELSE CfgCase))
